@@ -405,6 +405,19 @@ def r3_raise_before_store(R) -> None:
         ok = any(si.holds(n.id, f'{nm} in {idx_}') or si.holds(n.id, f'{nm} not in {idx_}', False) for idx_ in ("self.__dict__['index']", 'self.index'))
         R.check(ok, si.q, 'setitem-unknown-name', 'obj[name] = value for an unknown name raises KeyError before anything is set',
                 f'the whole-series path of __setitem__ is guarded by {g}: an unknown name is not rejected', where=si.where(n))
+    # the (name, label) / (name, label slice) paths: the series is found as `'_' + name` in __dict__, so the name must be known to
+    # be a variable there too - `'_' + name` also names the container's own bookkeeping (`_attributes`, `_strict`)
+    for n in si.cfg.nodes:
+        a = n.ast
+        if n.kind == 'stmt' and isinstance(a, ast.Assign) and len(a.targets) == 1 and isinstance(a.targets[0], ast.Subscript):
+            ds = dict_slot(a.targets[0].value)
+            nm = is_underscore_key(ds[1]) if ds is not None and ds[0] == 'self' else None
+            if nm is None:
+                continue
+            known = any(si.holds(n.id, f'{text(nm)} in {idx_}') or si.holds(n.id, f'{text(nm)} not in {idx_}', False) for idx_ in ("self.__dict__['index']", 'self.index'))
+            R.check(known, si.q, f'setitem-label-unknown-name:{stmt_key(a)[:50]}', 'obj[name, label] = value for a name that is not a variable raises KeyError before anything is set',
+                    f"`{text(a)[:70]}` looks the series up as '_' + {text(nm)} without checking that `{text(nm)}` is a variable: obj['attributes', 0] = x overwrites the container's own "
+                    f"list of attribute names (`_attributes`) instead of raising KeyError, with strict=True too", where=si.where(n))
     # ModelInterface.add_variable: names extended only after the base call succeeded
     g = Fn(R, f'{MI}.add_variable')
     base = g.nodes_with(lambda x: is_super_call(x, 'add_variable'))
